@@ -34,15 +34,21 @@ def run(w: World, rep: Report):
     r_flags, r_m, r_n = reads[0]
     # which locals hold m and n
     mvar = nvar = flag_tape = None
+
+    def _reads_in(k):
+        return [x.node for x in k.walk() if x.tag == 'tape_read']
     for n in cfg.nodes:
         if n.kind == 'stmt' and isinstance(n.ast, ast.Assign) and isinstance(n.ast.targets[0], ast.Name):
-            for x in ast.walk(n.ast.value):
-                if x is r_m.node:
+            kv = kinds.of(n.ast.value, n)
+            rd = _reads_in(kv)
+            # the integer decoded from the m / n operand; the Tape built over the flags operand
+            if any(l.tag in ('uint', 'sint', 'index') for l in kv.leaves()):
+                if any(x is r_m.node for x in rd):
                     mvar = n.ast.targets[0].id
-                if x is r_n.node:
+                if any(x is r_n.node for x in rd):
                     nvar = n.ast.targets[0].id
-                if x is r_flags.node:
-                    flag_tape = n.ast.targets[0].id
+            if any(l.tag == 'new' and l.cls == 'Tape' for l in kv.leaves()) and any(x is r_flags.node for x in rd):
+                flag_tape = n.ast.targets[0].id
     # pops: comprehension over range(n) first, then range(m)
     pops = []
     for n in cfg.nodes:
@@ -176,12 +182,10 @@ def run(w: World, rep: Report):
     for t in cfg.nodes:
         if t.kind == 'test' and any(a is inner.ast for a in cfg.ancestors(t.ast)):
             kt = kinds.of(t.ast, t)
-            txt = ast.unparse(t.ast)
-            d = cfg.defs_reaching(txt, t) if txt.isidentifier() else []
-            if d and all(how == 'assign' and 'bytes_to_bool' in ast.unparse(pl) and f'{stack}.get' in ast.unparse(pl)
-                         for _, how, pl in d):
-                res_tests.append(t)
-            elif 'bytes_to_bool' in txt and f'{stack}.get' in txt:
+            lv = kt.leaves()
+            # the boolean decoded from the item popped after the inner check
+            if lv and all(l.tag == 'call' and l.name == 'bytes_to_bool' and l.args and
+                          all(x.tag == 'stack_item' and x.how == 'get' for x in l.args[0].leaves()) for l in lv):
                 res_tests.append(t)
     if len(res_tests) != 1:
         raise AnalysisError('OP_CHECK_MULTISIG: test of the inner check result not found')
